@@ -58,26 +58,24 @@ func runFreshRound(c freshCase) (key, msg string) {
 			atomic.AddInt32(&total, 1)
 		}})
 	}
-	var ready, goFlag int32
-	few := runtime.GOMAXPROCS(0) <= c.Publishers
+	// barrier: everybody is parked on one channel and released by closing it (no spinning: a dozen shards
+	// of this check run side by side in the thorough tier)
+	begin := make(chan struct{})
+	var ready sync.WaitGroup
 	var wg sync.WaitGroup
 	for g := 0; g < c.Publishers; g++ {
 		wg.Add(1)
+		ready.Add(1)
 		go func(v int) {
 			defer wg.Done()
-			atomic.AddInt32(&ready, 1)
-			for atomic.LoadInt32(&goFlag) == 0 {
-				if few {
-					runtime.Gosched()
-				}
-			}
+			ready.Done()
+			<-begin
 			p.Publish(v)
 		}(g + 1)
 	}
-	for atomic.LoadInt32(&ready) < int32(c.Publishers) {
-		runtime.Gosched()
-	}
-	atomic.StoreInt32(&goFlag, 1)
+	ready.Wait()
+	runtime.Gosched()
+	close(begin)
 	wg.Wait()
 	for v := 0; v < c.Tail; v++ {
 		p.Publish(100 + v)
@@ -129,7 +127,7 @@ func TestFreshHandler(t *testing.T) {
 		}
 		return
 	}
-	vlib.Check(t, "fresh-handler", 60, 600, func(t *rapid.T) {
+	vlib.Check(t, "fresh-handler", 60, 150, func(t *rapid.T) {
 		c := freshCase{
 			Cap:        rapid.IntRange(-1, 2).Draw(t, "cap"),
 			Subs:       rapid.IntRange(1, 3).Draw(t, "subs"),
